@@ -209,10 +209,52 @@ def uses_ifuns(ps):
     return '(ifun ' in sexp.dumps(ps)
 
 
+def planted_invariant_problem(rng):
+    """a state invariant that reads a fluent THROUGH another fluent (bq(at) / forall k. xq(own(k)) <= 2), with actions
+    that write the inner fluent (at := p, own(s) := p) and the outer one (bq(p) := F, xq(p) += 2, forall w. xq(w) += 1):
+    whether an action may break the invariant cannot be told from the syntactic targets of its effects"""
+    g = upp.ProblemGen(rng, undefined=False, invariants=False, metrics=False)
+    ps = g.problem()
+    T, S = ["user", "T"], ["user", "S"]
+    FL = g.FL
+    tt = ["b", "T"]
+    acts = [
+        ["action", "kill", [["p0", T]], ["pre"], ["effs", ["eff", "assign", ["fl", FL["bq"], ["p", "p0", T]], ["b", "F"], tt, []]]],
+        ["action", "move", [["p0", T]], ["pre"], ["effs", ["eff", "assign", ["fl", FL["at"]], ["p", "p0", T], tt, []]]],
+        ["action", "give", [["p0", S], ["p1", T]], ["pre"], ["effs", ["eff", "assign", ["fl", FL["own"], ["p", "p0", S]], ["p", "p1", T], tt, []]]],
+        ["action", "bump", [["p0", T]], ["pre"], ["effs", ["eff", "increase", ["fl", FL["xq"], ["p", "p0", T]], ["i", "2"], tt, []]]],
+        ["action", "bumpall", [], ["pre"], ["effs", ["eff", "increase", ["fl", FL["xq"], ["v", "w", T]], ["i", "1"], tt, [["w", T]]]]],
+    ]
+    rng.shuffle(acts)
+    inv = [["always", ["fl", FL["bq"], ["fl", FL["at"]]]],
+           ["always", ["forall", [["k", S]], ["le", ["fl", FL["xq"], ["fl", FL["own"], ["v", "k", S]]], ["i", "2"]]]]]
+    out = []
+    for sec in ps:
+        if isinstance(sec, list) and sec and sec[0] == "actions":
+            out.append(["actions"] + acts[:rng.choice([3, 4, 5])])
+        elif isinstance(sec, list) and sec and sec[0] == "traj":
+            out.append(["traj"] + ([inv[0]] if rng.random() < 0.4 else [inv[1]] if rng.random() < 0.6 else inv))
+        elif isinstance(sec, list) and sec and sec[0] == "fluents":
+            # bq true everywhere, xq small: the initial state satisfies the invariants
+            fl = []
+            for ref, d in sec[1:]:
+                if ref[0] == "bq":
+                    d = ["b", "T"]
+                elif ref[0] == "xq":
+                    d = ["i", str(rng.choice([0, 1, 2]))]
+                fl.append([ref, d])
+            out.append(["fluents"] + fl)
+        elif isinstance(sec, list) and sec and sec[0] == "init":
+            out.append(["init"] + [iv for iv in sec[1:] if iv[0][1][0] not in ("bq", "xq")])
+        else:
+            out.append(sec)
+    return out
+
+
 def gen_problem(rng, undefined=True):
     """one canonical problem (the real builders' view of a generated one), or None if kept out"""
     g = upp.ProblemGen(rng, undefined=undefined, invariants=True, metrics=False)
-    ps = g.problem()
+    ps = planted_invariant_problem(rng) if rng.random() < 0.1 else g.problem()
     if rng.random() < 0.3:
         ps = inject_ifuns(rng, ps)
     if rng.random() < 0.35:
